@@ -49,10 +49,10 @@ def machine_devs():
 
 def families(tier):
     fam = [("float", "m", False), ("float", "", False), ("int", "m", False), ("int", "", False),
-           ("int", "km", False), ("float", "s", False), ("str", "", False), ("bool", "", False),
+           ("int", "km", False), ("str", "", False), ("bool", "", False),
            ("int", "", True), ("float", "m", True), ("str", "", True), ("bool", "", True)]
     if tier != "quick":
-        fam += [("float", "km", False), ("int", "s", False), ("float", "", True), ("int", "m", True)]
+        fam += [("float", "s", False), ("float", "km", False), ("int", "s", False), ("float", "", True), ("int", "m", True)]
     return fam
 
 
